@@ -106,6 +106,10 @@ def read_op(g, t, client="c", paged=False):
                 op["filter"] = e; op["names"].update(nm); op["values"].update(vs)
                 break
     if paged: op["limit"] = r.randrange(1, 5)
+    if r.random() < 0.2:
+        pj = g.projection()
+        if pj.get('projection'): op['projection'] = pj['projection']
+        op['names'].update(pj.get('names') or {})
     return op
 
 
@@ -395,11 +399,37 @@ def keys_script(g):
     return ops
 
 
+# ---------------- C12: numbers as keys ----------------
+def numkeys_script(g):
+    """number-typed hash or range keys whose numerals differ only beyond float64 precision or only in notation:
+    on the unchanged tree they are different keys (the key string is the numeral's text)"""
+    r = g.r
+    rng = r.random() < 0.5
+    op = dict(op="create_table", client="c", table="tbl", hash=dict(name="h", type="S" if rng else "N"), billing="PAY_PER_REQUEST", throughput=True)
+    if rng: op["range"] = dict(name="r", type="N")
+    ops = [op]
+    pool = ["9007199254740993", "9007199254740992", "1", "1.0", "0.1", "0.10000000000000000001", "10", "1e1", "123456789012345678", "123456789012345679"]
+    ks = r.sample(pool, r.randrange(3, 8))
+    key = (lambda k: {"h": S("p"), "r": N(k)}) if rng else (lambda k: {"h": N(k)})
+    for i, k in enumerate(ks):
+        it = key(k); it["i"] = N(str(i))
+        ops.append(dict(op="put", client="c", table="tbl", item=it))
+    for k in ks: ops.append(dict(op="get", client="c", table="tbl", key=key(k)))
+    ops.append(dict(op="scan", client="c", table="tbl"))
+    ops.append(dict(op="delete", client="c", table="tbl", key=key(ks[0]), return_old=True))
+    ops.append(dict(op="update", client="c", table="tbl", key=key(ks[1]), expr="SET v = :v", names={}, values={":v": S("u")}))
+    ops.append(dict(op="scan", client="c", table="tbl"))
+    return ops
+
+
 # ---------------- C15: emulated failures ----------------
 def faults_script(g):
     r = g.r
     t, ops = g.create_ops("c", "tbl")
     ops += populate(g, t, nmin=1, nmax=4)
+    two = r.random() < 0.4
+    if two:
+        t2, o2 = g.create_ops("c", "tb2"); ops += o2
     for _ in range(r.randrange(2, 5)):
         tog = r.choice([dict(op="emulate_failure", client="c", cond=r.choice(["internal_server", "deprecated", "none", "bogus"])),
                         dict(op="activate_force_failure", client="c")])
@@ -411,6 +441,12 @@ def faults_script(g):
             if r.random() < 0.5: ops += g.data_op("c", [t], len(ops))[:1]
         for _ in range(r.randrange(1, 5)):
             ops += g.data_op("c", [t], len(ops))[:1]
+        if two and r.random() < 0.7:
+            # a batch over two tables while the failure is active: every request must come back under its own table
+            reqs = {}
+            for tt in (t, t2):
+                reqs[tt["name"]] = [dict(put=g.item_of(tt)) if r.random() < 0.7 else dict(delete=g.key_of(tt["schema"])) for _ in range(r.randrange(1, 4))]
+            ops.append(dict(op="batch_write", client="c", requests=reqs))
         ops.append(r.choice([dict(op="deactivate_force_failure", client="c"), dict(op="emulate_failure", client="c", cond="none")]))
         ops.append(dict(op="scan", client="c", table="tbl"))
         for _ in range(r.randrange(0, 3)):
@@ -638,6 +674,8 @@ STREAMS = {
                      rule='trees of depth <=3 over all ten types with boundary members'),
     'keys': Stream('keys', 'script', scripts_from(keys_script, 'k'), view_all_but_fired,
                    rule='keys over S/N/B with separator characters, near-colliding and malformed keys'),
+    'numkeys': Stream('numkeys', 'script', scripts_from(numkeys_script, 'nk'), view_all_but_fired,
+                      rule='number-typed keys whose numerals differ only beyond float64 precision or only in notation'),
     'faults': Stream('faults', 'script', scripts_from(faults_script, 'e'), view_all_but_fired, nontrivial=nt_faults,
                      rule='a failure is active during a data op and inactive during a later one'),
     'lifecycle': Stream('lifecycle', 'script', scripts_from(lifecycle_script, 'l'), view_all_but_fired, nontrivial=nt_lifecycle,
